@@ -149,6 +149,11 @@ class SourceMapping:
         self.line = line_number
         self.column = column
 
+    def __eq__(self, other: object) -> bool:
+        if not isinstance(other, SourceMapping) or type(self) is not type(other):
+            return False
+        return self.line == other.line and self.column == other.column
+
     def serialize(self) -> list[Any]:
         return [self.line, self.column]
 
@@ -192,6 +197,22 @@ class MacroSourceMapping(SourceMapping):
         # The mapping of parameter values for the current macro context, only for informational
         # purposes. Contains the string representation or integer value
         self.parameter_mapping = parameter_mapping
+
+    def __eq__(self, other: object) -> bool:
+        if not isinstance(other, MacroSourceMapping):
+            return False
+        # called_in is a tuple when built by the compiler and a list when read back from JSON.
+        called_in = list(self.called_in) if self.called_in is not None else None
+        other_called_in = list(other.called_in) if other.called_in is not None else None
+        return (
+            self.line == other.line
+            and self.column == other.column
+            and self.relpath_included_file == other.relpath_included_file
+            and self.macro_name == other.macro_name
+            and called_in == other_called_in
+            and self.return_addr == other.return_addr
+            and self.parameter_mapping == other.parameter_mapping
+        )
 
     def serialize(self) -> list[Any]:
         return [
